@@ -129,6 +129,15 @@ func (s *Stream) nonIntegerRest() bool {
 	return true
 }
 
+// errNumberEnd is the error for a byte that cannot follow a number (the literal itself was
+// well formed up to it). It is reported before anything is stored.
+func errNumberEnd(buf []byte, cursor, depth int64) error {
+	if depth == 0 {
+		return errors.ErrSyntax(fmt.Sprintf("invalid character '%c' after top-level value", buf[cursor]), cursor+1)
+	}
+	return errors.ErrInvalidCharacter(buf[cursor], "number(integer)", cursor)
+}
+
 func (d *intDecoder) decodeStreamByte(s *Stream) ([]byte, error) {
 	for {
 		switch s.char() {
@@ -297,6 +306,10 @@ func (d *intDecoder) Decode(ctx *RuntimeContext, cursor, depth int64, p unsafe.P
 		return c, nil
 	}
 	cursor = c
+	if !validEndNumberChar[ctx.Buf[cursor]] {
+		// "01", "1-": nothing is stored for a literal that does not end here
+		return 0, errNumberEnd(ctx.Buf, cursor, depth)
+	}
 
 	i64, err := d.parseInt(bytes)
 	if err != nil {
